@@ -742,7 +742,7 @@ func replayC09(r *mon.Run, path string) {
 		viol := func(key, what string) {
 			reportViolation(r, key, what, c09Witness{fuzzWitness: mkWitness(s, v, "replay", raw, in, &res), Cause: w.Cause, Scenario: w.Scenario, Expect: w.Expect})
 		}
-		f.judgeSCMPError(s, v, raw, h, &res, w.Cause, w.Cause != "valid" && w.Cause != "if-down", ex, raw[8] == 3, outcomeOf(&res), t0, t1, viol)
+		f.judgeSCMPError(s, v, raw, h, &res, w.Cause, w.Cause != "valid", ex, raw[8] == 3, outcomeOf(&res), t0, t1, viol)
 	}
 	f.a.flush()
 	r.Class("replay")
